@@ -3,6 +3,7 @@ package props
 
 import (
 	"fmt"
+	"os"
 
 	ike "github.com/free5gc/ike"
 	"github.com/free5gc/ike/eap"
@@ -72,6 +73,14 @@ func libEAPUnmarshal(b []byte) (e *abs.EAP, err error, p *core.Panic) {
 		}
 	})
 	return
+}
+
+// variant names the build this process is (plain | race | asan), set by the runner.
+func variant() string {
+	if v := os.Getenv("VERIF_VARIANT"); v != "" {
+		return v
+	}
+	return "plain"
 }
 
 func role(initiator bool) message.Role {
